@@ -54,7 +54,7 @@ def vectorsOf (k : Kind) (j : Json) : R (Json × List (String × Json)) := do
   | .rank => do
     let m ← fld j "method" >>= asStr >>= asMethod
     let xs ← asList (asList (asOpt asRat)) xj
-    pure (ofList (ofList (ofOpt ofRat)) (xs.map (rankT m)), [])
+    pure (ofList (ofList (ofOpt ofRat)) (xs.map (rankTCoded m)), [])
   | .sqrt => do
     let xs ← asList (asList (asOpt asFloat)) xj
     pure (ofList (ofList (ofOpt ofFloat)) (xs.map sqrtT), [])
@@ -66,26 +66,25 @@ def vectorsOf (k : Kind) (j : Json) : R (Json × List (String × Json)) := do
     let f ← fld j "fn" >>= customFn
     pure (ofList (ofList ofRat) (customT f xs), [])
   | .minmax => do
-    let xs ← asList (asList asRat) xj
-    let row (v : List Rat) : Json :=
-      match minmaxT v with
-      | some r => ofList ofRat r
-      | none => ofList (fun _ => Json.null) v
-    pure (ofList row xs, [])
+    let xs ← asList (asList (asOpt asRat)) xj
+    pure (ofList (ofList (ofOpt ofRat)) (xs.map minmaxNanT), [])
   | .geotop => do
-    let xs ← asList (asList asRat) xj
+    let xs ← asList (asList (asOpt asRat)) xj
     let low ← fld j "low" >>= asRat
     let up ← fld j "up" >>= asRat
-    let (lo, hi, rows) := geotopStack low up xs
-    pure (ofList (ofList (ofOpt ofRat)) rows, [("lo", ofRat lo), ("hi", ofRat hi)])
+    let rows := geotopNanStack low up xs
+    -- the thresholds (for the harness' diagnostics) exist when no entry is missing
+    let extra := if xs.all (fun v => v.all Option.isSome) then
+        let (lo, hi, _) := geotopStack low up (xs.map present)
+        [("lo", ofRat lo), ("hi", ofRat hi)]
+      else []
+    pure (ofList (ofList (ofOpt ofRat)) rows, extra)
   | .geodesic => do
-    let xs ← asList (asList asRat) xj
+    let xs ← asList (asList (asOpt asRat)) xj
     let n ← fld j "n" >>= asNat
-    let row (v : List Rat) : Json :=
-      match geodesicT n v with
-      | some r => ofList ofDist r
-      | none => ofList (fun _ => Json.null) v
-    pure (ofList row xs, [])
+    match geodesicStack n xs with
+    | some rows => pure (ofList (ofList ofDist) rows, [])
+    | none => pure (Json.null, [("raise", Json.str "ValueError")])
 
 /-- a whole transform on an RDMs record: vectors, measure name, descriptors -/
 def applyOp (j : Json) : R Json := do
@@ -96,6 +95,8 @@ def applyOp (j : Json) : R Json := do
       rdmDescr := fldD j "rdm_descr" Json.null, patDescr := fldD j "pat_descr" Json.null }
   -- the vector part may fail (bad input): run it first, then package through `applyT`
   let (vecs, extra) ← vectorsOf k j
+  if !passesDescriptors k then
+    throw "the RDMs(...) call of this transform no longer passes the array / the descriptors"
   let out := applyT k (fun _ => vecs) src
   pure (obj ([("vecs", out.vecs), ("measure", ofOpt Json.str out.measure),
               ("descr", out.descr), ("rdm_descr", out.rdmDescr), ("pat_descr", out.patDescr)]
